@@ -93,6 +93,12 @@ def generate_sink(seed, rng):
             ops.append(['close', rng.randrange(nid)])
         elif r < 0.25:
             ops.append(['close_unknown'])
+        elif r < 0.31:
+            # the user, between two backend events (GDB mode, or any backend driving the sink while a prompt is open):
+            # look at one connection only, or at all of them again
+            ops.append(['select', rng.randrange(1 << 16)])
+        elif r < 0.37:
+            ops.append(['list'])
         else:
             ops.append(['msg', rng.randrange(nid)])
     cfg = {'kind': 'sink', 'nconn': nid, 'sides': ['client'], 'dialect': 'v1.18', 'epoch_us': 0, 'synth': False,
@@ -425,6 +431,7 @@ def execute_sink(sc, post=None):
     now = 0.0
     inc_count = 0
     exc = None
+    selected = None
     import traceback
     try:
         for op in sc['sink_ops']:
@@ -449,6 +456,8 @@ def execute_sink(sc, post=None):
             elif op[0] == 'close':
                 ident = 'id%d' % op[1]
                 if ident in model_open:
+                    if selected is not None and selected != model_open[ident][0]:
+                        V.bump('probe_close_while_other_selected')
                     model_open[ident][2] = False
                     del model_open[ident]
                     V.bump('sink_close_open')
@@ -458,6 +467,28 @@ def execute_sink(sc, post=None):
             elif op[0] == 'close_unknown':
                 cm.close_connection(now, 'never-opened')
                 V.bump('sink_close_unknown')
+            elif op[0] == 'select':
+                # `connection <name>` / `connection all` between backend events: what is announced, reported closed and
+                # listed afterwards does not depend on which connection the user is looking at
+                k = op[1] % (len(model_all) + 1)
+                if k == len(model_all):
+                    ctl.process_command('connection all')
+                    selected = None
+                else:
+                    ctl.process_command('connection ' + (model_all[k][0] if op[1] & 1024 else model_all[k][0].lower()))
+                    selected = model_all[k][0]
+                V.bump('sink_select')
+            elif op[0] == 'list':
+                mark = rec.seq
+                ctl.process_command('connection')
+                rows = [CONN_LINE_RE.match(p_) for s_, k_, p_ in rec.events if k_ == 'out' and s_ >= mark]
+                got_rows = [(m_.group(2), m_.group(4), int(m_.group(5)), m_.group(1) == ' => ') for m_ in rows if m_]
+                want_rows = [(e_[0], 'open' if e_[2] else 'closed', e_[3], e_[0] == selected) for e_ in model_all]
+                if got_rows != want_rows:
+                    V.add('C04/listing', 'sink', '`connection` between backend events lists %r, expected %r' % (got_rows[:8], want_rows[:8]))
+                V.bump('sink_list')
+                if any(not e_[2] for e_ in model_all[:-1]) and any(e_[2] for e_ in model_all):
+                    V.bump('probe_listing_open_after_closed')
             elif op[0] == 'msg':
                 ident = 'id%d' % op[1]
                 e = model_open.get(ident)
